@@ -71,7 +71,16 @@ import (
 )
 
 // RepoRootFS is where the real templates live.
-const RepoRootFS = "/repo/rootfs"
+var RepoRootFS = repoRoot() + "/rootfs"
+
+// repoRoot is /repo, or the scratch copy named by VERIF_REPO when the checks are tried
+// against a copy of the repository.
+func repoRoot() string {
+	if r := os.Getenv("VERIF_REPO"); r != "" {
+		return r
+	}
+	return "/repo"
+}
 
 // Op is the kind of a cluster change.
 type Op int
